@@ -10,8 +10,8 @@ Plain(tm) == Mk({"OGD", "ADA"}, {2}, {0}, Deltas \cup {<<1, 1>>}, tm)
 MC_Cfgs == Mk(Sketched, {3}, {2, 3}, Deltas, 4) \cup Mk(Sketched, {4}, {2, 3}, Deltas, 3) \cup Plain(4)
 MC_Masses == {0, 1, 4}
 MC_GVals  == {-2, 0, 1}
-\* thorough: d = 3 to depth 5, d = 4 (sketch sizes 2..4) to depth 4 with one more mass value
-MCT_Cfgs == Mk(Sketched, {3}, {2, 3}, Deltas \cup PosDeltas, 5)
+\* thorough: d = 3 to depth 5 (three deltas), d = 4 (sketch sizes 2..4) to depth 4; ~2.1e6 states
+MCT_Cfgs == Mk(Sketched, {3}, {2, 3}, Deltas \cup {<<3, 1>>}, 5)
             \cup Mk(Sketched, {4}, {2, 3, 4}, Deltas, 4) \cup Plain(5)
-MCT_Masses == {0, 1, 4, 9}
+MCT_Masses == {0, 1, 4}
 ====
